@@ -145,7 +145,7 @@ func init() {
 				bound = 2
 			}
 			ps := []*harness.Phase{
-				{Name: "required-decode", Bound: bound, Rule: "5 (thorough 7) id triples x 8 required-masks x 8 nesting positions x (64 omission pairs + 3 wrong-wire-type variants) x 6 one-call histories (none / successful same type / successful sibling type / required-missing failure / truncation failures) x pool answers with <=bound deviations; distinct by (type, message, history)", Body: func(c *explore.C) { c09Decode(c, tier) }},
+				{Name: "required-decode", Bound: bound, Rule: "5 (thorough 7) id triples x 8 required-masks x 8 nesting positions x (64 omission pairs + 3 wrong-wire-type variants) x 6 one-call histories (none - then also 3 wire orders of the fields - / successful same type / successful sibling type / required-missing failure / truncation failures) x pool answers with <=bound deviations; distinct by (type, message, history)", Body: func(c *explore.C) { c09Decode(c, tier) }},
 				{Name: "required-many", Rule: "a struct with 73 fields (ids 1..70, 4096, 32768, 65535; declared in descending id order) of which all / the last nine / every seventh are required: every single omission x 4 second omissions; the error must name a lacking field", Body: func(c *explore.C) { c09Many(c, tier) }},
 				{Name: "required-kinds", Rule: "the required field ranges over 24 field forms (14 base forms, zero-copy string/binary, named Go types, containers of structs and enums, holder struct) x 3 sets of neighbour fields x 4 positions x {complete, absent, wrong wire type, present twice} x with/without unknown-fields holder", Body: func(c *explore.C) { c09Kinds(c, tier) }},
 				{Name: "required-encode", Rule: "7 id triples x 8 masks x 8 positions x {zero, nil, set} values: every required field id occurs in the output", Body: func(c *explore.C) { c09Encode(c, tier) }},
@@ -176,8 +176,28 @@ func c09Decode(c *explore.C, tier universe.Tier) {
 	}
 	w := c09Writer(core, wrong)
 	wouter := retarget(outer, core, w)
-	msg := ref.Encode(wouter, build(c09CoreVal(w, pa, 1), c09CoreVal(w, pb, 4)))
 	hist := c.Choose(6, explore.Data, "history")
+	order := 0
+	if hist == 0 {
+		// fields of the core struct on the wire in ascending / descending / rotated id order (any order is legal
+		// Thrift: peers write in declaration order); enumerated for the history-free case
+		order = c.Choose(3, explore.Data, "wire-order")
+	}
+	msg := ref.EncodeWith(wouter, build(c09CoreVal(w, pa, 1), c09CoreVal(w, pb, 4)), func(st *ref.Struct) []int {
+		if st != w || order == 0 {
+			return nil
+		}
+		n := len(st.Fields)
+		o := make([]int, n)
+		for i := range o {
+			if order == 1 {
+				o[i] = n - 1 - i
+			} else {
+				o[i] = (i + 1) % n
+			}
+		}
+		return o
+	})
 	harness.Cur.Crumb(c.Choices())
 	hooks.Reset()
 	var fail *decodeVerdict
@@ -204,7 +224,7 @@ func c09Decode(c *explore.C, tier universe.Tier) {
 		fail = decodeAndCompare(outer, msg, decodeOpts{Guard: true})
 	})
 	dv := fail
-	how := fmt.Sprintf("ids %v required-mask %03b position %s present A=%03b B=%03b wrong-type field %d history %d", tri, mask, pos, pa, pb, wrong, hist)
+	how := fmt.Sprintf("ids %v required-mask %03b position %s present A=%03b B=%03b wrong-type field %d history %d wire-order %d", tri, mask, pos, pa, pb, wrong, hist, order)
 	if dv.Class != "" {
 		c.Fail(dv.Msg+" ["+how+"]", mkCase("C09", dv.Class, outer, nil, msg, dv.detail()))
 		return
